@@ -612,7 +612,7 @@ PROPS["C10"] = dict(
           unwindset_rules=[("from_occupancy", r"occupancy\.pop\(\)", 4, 0)], desc="colored_attacks "
           "and is_check give the same answers on a board, on a clone taken before any query and on a clone taken after (fresh computation "
           "vs. copied cache)", functions=["Board::{attack_map,colored_attacks,is_check,new,clone}"], timeout=1800),
-        K("c10", "c10_successor_answers_are_fresh", kind="bounded", bound="<= 2 pieces per kind and colour; spike attack function; every move class", tier="experimental",
+        K("c10", "c10_successor_answers_are_fresh", kind="bounded", bound="<= 2 pieces per kind and colour; spike attack function; every move class",
           unwindset_rules=[("from_occupancy", r"occupancy\.pop\(\)", 4, 0)],  # a promotion can add a third piece of a kind
           desc="the board of the position reached by State::by_performing_move answers colored_attacks / colored_pawn_attacks / is_check exactly as a "
           "board built from scratch from the successor's placement, whatever had been asked of (and cached in) the parent before the move",
